@@ -194,6 +194,7 @@ Definition T_SETNAME := 8.
 Inductive flavor := FUnbuf | FBufOff | FBufOn.   (* plain class; buffered class outside / inside a buffered context *)
 Inductive opkind :=
   | KMutate        (* any mutator that goes through `with self._load_and_save` *)
+  | KMutateNew     (* the same, storing a container: the nested object's constructor takes the class lock *)
   | KRootNoLoad    (* clear() / reset() on a root: `with self._lock_and_save` *)
   | KRead          (* any read API: self._load() *)
   | KSetFilename
@@ -264,6 +265,7 @@ Definition p_flush_buffer (fl : flavor) (v : variant) : sprog :=
 Definition prog_of_op (fl : flavor) (v : variant) (k : opkind) : sprog :=
   match k with
   | KMutate => SSeq (SAct T_VALIDATE) (p_with fl v true (SAct T_BODY))
+  | KMutateNew => SSeq (SAct T_VALIDATE) (p_with fl v true (SSeq (with_lock LCls SSkip) (SAct T_BODY)))
   | KRootNoLoad => SSeq (SAct T_VALIDATE) (p_with fl v false (SAct T_BODY))
   | KRead => p_load fl v
   | KSetFilename => with_lock LColl (SSeq (SAct T_SETNAME) (with_lock LCls SSkip))
@@ -279,7 +281,7 @@ Definition prog_of_op (fl : flavor) (v : variant) (k : opkind) : sprog :=
 Definition all_flavors := [FUnbuf; FBufOff; FBufOn].
 Definition all_variants := [ {| v_list := false; v_shm := false |}; {| v_list := true; v_shm := false |};
                              {| v_list := false; v_shm := true |}; {| v_list := true; v_shm := true |} ].
-Definition all_opkinds := [KMutate; KRootNoLoad; KRead; KSetFilename; KConstruct; KExitObj; KExitCls; KSetCapacity].
+Definition all_opkinds := [KMutate; KMutateNew; KRootNoLoad; KRead; KSetFilename; KConstruct; KExitObj; KExitCls; KSetCapacity].
 Definition all_progs : list sprog :=
   flat_map (fun fl => flat_map (fun v => map (prog_of_op fl v) all_opkinds) all_variants) all_flavors.
 
